@@ -126,6 +126,8 @@ var c04Muts = []mutSpec{
 	{kind: "ext-remnant", alerts: []int{alDecodeError, alIllegalParameter}},
 	{kind: "outer-ext-remnant", alerts: []int{alDecodeError, alIllegalParameter}},
 	{kind: "type-inner-no-tls13", alerts: []int{alIllegalParameter}},
+	{kind: "outer-ech-empty", alerts: []int{alDecodeError, alIllegalParameter}},
+	{kind: "inner-ech-empty", alerts: []int{alDecodeError, alIllegalParameter}},
 }
 
 func addAlerts(dst []int, src []int) []int {
@@ -171,7 +173,10 @@ func genC04(seed uint64, idx int) *Plan {
 		if ms.kind == "outer-ext-remnant" && hasMut(p.Mutations, "outer-no-tls13") != nil {
 			continue
 		}
-		isB := ms.needRun || ms.needPad || ms.kind == "trunc-inner" || ms.kind == "inner-len-lie" || ms.kind == "inner-no-tls13" || ms.kind == "inner-no-ech" || ms.kind == "ext-remnant"
+		if ms.kind == "outer-ech-empty" && (hasMut(p.Mutations, "outer-ech-type") != nil || hasMut(p.Mutations, "ech-ext-lie") != nil) {
+			continue
+		}
+		isB := ms.kind == "inner-ech-empty" || ms.needRun || ms.needPad || ms.kind == "trunc-inner" || ms.kind == "inner-len-lie" || ms.kind == "inner-no-tls13" || ms.kind == "inner-no-ech" || ms.kind == "ext-remnant"
 		if isB && stageB {
 			continue // one deviation per inner hello, any number on the outer
 		}
@@ -235,6 +240,16 @@ func genC05(seed uint64, idx int) *Plan {
 		p.ExtraIn = min(p.ExtraIn, 1)
 	}
 	p.LegacyVer = []uint16{0, 0, 0, 0x0301, 0x0302, 0x0300, 0x0304}[r.IntN(7)]
+	if r.IntN(6) == 0 {
+		// mixed-case host name: reported as sent
+		b := []byte(p.InnerSNI)
+		for i := range b {
+			if b[i] >= 'a' && b[i] <= 'z' && r.IntN(2) == 0 {
+				b[i] -= 32
+			}
+		}
+		p.InnerSNI = string(b)
+	}
 	p.HRRThenHello2 = r.IntN(4) == 0
 	switch r.IntN(7) {
 	case 0: // no ECH at all, TLS 1.3
@@ -256,6 +271,15 @@ func genC05(seed uint64, idx int) *Plan {
 		p.Target = t
 	case 6: // real ECH, server has no keys at all
 		p.Keys = nil
+		if r.IntN(2) == 0 {
+			// ... or: a decryptable ECH on an outer hello that does not offer TLS 1.3
+			p.Keys = []KeySpec{p.Target}
+			p.Mutations = []Mutation{{Kind: "outer-no-tls13"}}
+		}
+	}
+	if p.NoECH && !p.TLS13 && r.IntN(2) == 0 {
+		// a TLS 1.2 client that still offers compression
+		p.Compression = [][]byte{{1, 0}, {0, 1, 64}, {1}}[r.IntN(3)]
 	}
 	if (p.NoECH || p.Grease) && r.IntN(3) == 0 {
 		p.Keys = nil
@@ -263,7 +287,7 @@ func genC05(seed uint64, idx int) *Plan {
 	return &Plan{Kind: "script", Seed: seed, Script: p}
 }
 
-var c02Subs = []string{"wrong-key", "wrong-info", "wrong-id-ext", "wrong-suite-ext", "trunc-enc", "trunc-payload", "aad-not-zeroed", "unlisted-suite", "canonical-info"}
+var c02Subs = []string{"ech-trailing", "wrong-key", "wrong-info", "wrong-id-ext", "wrong-suite-ext", "trunc-enc", "trunc-payload", "aad-not-zeroed", "unlisted-suite", "canonical-info"}
 
 func genC02(seed uint64, idx int, tier string) *Plan {
 	r := core.NewRand(seed, "plan")
